@@ -745,6 +745,8 @@ def k_fresh_run(run, case):
                "plot_fontfamily": ["serif", "monospace"][rng.integers(2)]}
         keys = [k for k in cfg if rng.random() < .7] or ["plot_linewidth"]
         cfg = {k: cfg[k] for k in keys}
+        if tool in ("ape", "rpe") and rng.random() < .6:
+            cfg["save_traj_in_zip"] = True  # (a setting that is read when the result is stored; default false)
         open(os.path.join(work, "cfg.json"), "w").write(json.dumps(cfg))
         env = dict(os.environ)
         env["HOME"] = home
@@ -753,10 +755,18 @@ def k_fresh_run(run, case):
 
         def go(extra):
             argv = BASE_ARGV[tool] + ["--save_plot", "plot.png", "--no_warnings"] + extra
+            if tool in ("ape", "rpe"):
+                argv += ["--save_results", "res.zip"]
             p = subprocess.run([sys.executable, "-c", FRESH_DRIVER % {"tool": tool, "argv": argv}], cwd=work, env=env,
                                capture_output=True, text=True, timeout=300)
             line = [l for l in p.stdout.splitlines() if l.startswith("VMON ")]
-            return (json.loads(line[-1][5:]) if line else None), p
+            obs = json.loads(line[-1][5:]) if line else None
+            zp = os.path.join(work, "res.zip")
+            if obs is not None and os.path.exists(zp):
+                import zipfile
+                with zipfile.ZipFile(zp) as z:
+                    obs["trajectories_in_archive"] = any(n.endswith((".tum", ".kitti")) for n in z.namelist())
+            return obs, p
 
         first, p0 = go([])  # first run: initialises the home, plots with the defaults
         if first is None or first["rc"] != 0 or not first["plot_loaded"]:
@@ -776,10 +786,16 @@ def k_fresh_run(run, case):
         run.check(not bad, "the run plots with the settings of the -c file", case,
                   "evo_%s -c %r plotted with (observed, expected) %r" % (tool, cfg, bad),
                   key="fresh:-c-setting-not-used-by-the-run")
+        if "trajectories_in_archive" in got:
+            run.check(got["trajectories_in_archive"] == bool(cfg.get("save_traj_in_zip", D["save_traj_in_zip"])),
+                      "the run stores its result with the settings of the -c file", case,
+                      "evo_%s -c %r: trajectories in the result archive: %r" % (tool, cfg, got["trajectories_in_archive"]),
+                      key="fresh:-c-setting-not-used-by-the-run")
         run.check(open(os.path.join(home, ".evo", "settings.json"), "rb").read() == stored,
                   "settings file untouched by -c (fresh process)", case, "the settings file changed", key="merge_config:file-changed")
         third, _ = go([])
-        run.check(third is not None and all(third[k] == first[k] for k in want),
+        run.check(third is not None and all(third[k] == first[k] for k in want) and
+                  third.get("trajectories_in_archive") == first.get("trajectories_in_archive"),
                   "the next run uses the stored settings again", case,
                   "after a run with -c the next run plotted with %r (before: %r)" % (third, first), key="fresh:-c-leaked")
     finally:
